@@ -285,6 +285,9 @@ def oracle(d, rc):
                 mk("sandbox-hung-" + vid, [vid], "ApplyRaftRequest does not return (15 s) on a vector fed directly to apply (the leader rejected it)")
         elif jl:
             vid = jl[-1].split("\t")[0]
+            grp = None
+            if vid not in vec and "\t" in jl[-1] and ";" in jl[-1].split("\t")[1]:
+                grp = jl[-1].split("\t")[1]   # a pipelined group (several commands in one TCP write)
             tail = ""
             lp = os.path.join(d, "server.log")
             if os.path.exists(lp):
@@ -293,7 +296,12 @@ def oracle(d, rc):
                 if i < 0:
                     i = txt.find("fatal error")
                 tail = txt[i:i + 1500] if i >= 0 else txt[-600:]
-            mk("process-died-" + vid, [vid], "the server process died (exit %s) while this vector was being handled" % rc, extra=dict(trace=tail))
+            if grp:
+                mk("process-died-" + vid, [], "the server process died (exit %s) while this pipelined group (one TCP write) was being handled" % rc,
+                   extra=dict(trace=tail, vectors=["%s\t%s" % (vid, grp)], history=["%s\t%s" % (vid, grp)],
+                              commands=[show(unh(c)) for c in grp.split(";")]))
+            else:
+                mk("process-died-" + vid, [vid], "the server process died (exit %s) while this vector was being handled" % rc, extra=dict(trace=tail))
     end = kv(orc.get("END", ""))
     if end.get("stalls", "0") != "0":
         notes["apply loop answered a probe later than 2 s (load), recovered: %s times" % end["stalls"]] += 1
